@@ -517,4 +517,91 @@ theorem spliceLoop_congr (q : Quirks) (n : Nat) (resyn : Section → Except Stri
         simpa [secTriggers, hr] using hs
       rw [this, ih _ hrest, ih _ hrest]
 
+/-! ## the fragment the repaired optimizer accepts in practice: sections that reduce to X gates -/
+
+theorem bstate_ext {a b : BState} (hl : a.length = b.length)
+    (h : ∀ j, j < a.length → a.getD j false = b.getD j false) : a = b := by
+  apply List.ext_getElem hl
+  intro j h1 h2
+  have := h j h1
+  simpa [List.getD, h1, h2] using this
+
+/-- a list of X gates on the qubits `F` flips exactly those -/
+theorem runClassical_xs : ∀ (F : List Nat) (new : List AGate) (st : BState),
+    new.map (fun g => (g.cls, g.wires)) = F.map (fun i => (GClass.X, [i])) →
+    runClassical new st = F.foldl (fun s i => s.flip i) st := by
+  intro F
+  induction F with
+  | nil =>
+    intro new st h
+    cases new with
+    | nil => rfl
+    | cons g gs => simp at h
+  | cons i F ih =>
+    intro new st h
+    cases new with
+    | nil => simp at h
+    | cons g gs =>
+      simp only [List.map_cons, List.cons.injEq, Prod.mk.injEq] at h
+      obtain ⟨⟨hc, hw⟩, hrest⟩ := h
+      rw [runClassical_cons, List.foldl_cons]
+      have : stepClassical st g = st.flip i := by
+        unfold stepClassical AGate.applyClassical
+        rw [hc, hw]
+        simp [GClass.isMCXLike]
+      rw [this]
+      exact ih gs _ hrest
+
+theorem foldl_flip_length (F : List Nat) : ∀ st : BState, (F.foldl (fun s i => s.flip i) st).length = st.length := by
+  induction F with
+  | nil => intro st; rfl
+  | cons i F ih => intro st; rw [List.foldl_cons, ih, flip_length]
+
+theorem foldl_flip_getD (F : List Nat) (hF : F.Nodup) : ∀ (st : BState) (j : Nat), j < st.length →
+    (F.foldl (fun s i => s.flip i) st).getD j false = if j ∈ F then !(st.getD j false) else st.getD j false := by
+  induction F with
+  | nil => intro st j _; simp
+  | cons i F ih =>
+    intro st j hj
+    have hnd := List.nodup_cons.mp hF
+    rw [List.foldl_cons, ih hnd.2 _ j (by rw [flip_length]; exact hj), flip_getD]
+    by_cases hij : i = j
+    · subst hij
+      simp [hnd.1, hj]
+    · have : ¬ (i = j ∧ j < st.length) := fun h => hij h.1
+      simp only [this, if_false, List.mem_cons]
+      have hji : ¬ j = i := fun h => hij h.symm
+      simp [hji]
+
+/-- **X-only sections.**  If the section's expressions say "qubits in `F` are negated, every other
+qubit keeps its value" and the new gate list is one X gate per qubit of `F`, the splice is
+harmless – by the soundness of the symbolic execution (C11) -/
+theorem xonly_sectionOK (K : Kernel) (hK : K.Sound) (q : Quirks) (n : Nat) (sec : List AGate) (d : Dict)
+    (hd : expsOfSection q K n sec = .ok d) (new : List AGate) (F : List Nat) (hF : F.Nodup)
+    (hnew : new.map (fun g => (g.cls, g.wires)) = F.map (fun i => (GClass.X, [i])))
+    (hflip : ∀ i ∈ F, ∀ ρ, (expOf d i).eval ρ = !ρ (qname i))
+    (hid : ∀ i, i < n → i ∉ F → ∀ ρ, (expOf d i).eval ρ = ρ (qname i)) :
+    SectionOK n sec new := by
+  refine ⟨?_, ?_⟩
+  · intro g hg
+    have : (g.cls, g.wires) ∈ new.map (fun g => (g.cls, g.wires)) := List.mem_map_of_mem hg
+    rw [hnew] at this
+    obtain ⟨i, _, hi⟩ := List.mem_map.mp this
+    simp only [Prod.mk.injEq] at hi
+    rw [← hi.1, ← hi.2]
+    exact ⟨Or.inl rfl, by simp⟩
+  · intro st hst
+    rw [runClassical_xs F new st hnew]
+    apply bstate_ext
+    · rw [foldl_flip_length, runClassical_length]
+    · intro j hj
+      rw [foldl_flip_length] at hj
+      have hjn : j < n := hst ▸ hj
+      rw [foldl_flip_getD F hF st j hj]
+      have hs := expsOfSection_sound hK q hd st hst j hjn
+      rw [← hs]
+      by_cases hm : j ∈ F
+      · rw [if_pos hm, hflip j hm, stateEnv_qname st hjn]
+      · rw [if_neg hm, hid j hjn hm, stateEnv_qname st hjn]
+
 end QV.Decopt
